@@ -9,25 +9,25 @@ EX = 'exploration'
 # id: (engine, level, technique, text, note, design_ref)
 CHECKS = {
  'C01': ('search', MC, 'bounded exhaustive enumeration of score matrices/configurations through parse_sentence with a pop monitor; independent all-derivations oracle',
-         'Every score matrix of full products and deviation-bounded families, for 12 synthetic and 3 real grammars, both head directions, n<=4(5), unary penalties and beam settings, and every step budget of a family, is run through the real parsing.h; the returned score must equal the maximum over all independently enumerated derivations and the hook must never see a priority increase.',
-         'Trusted: derivation oracle (mc/search.py), ctypes shim, exact dyadic arithmetic; bounds: n<=4 (5 in thorough for one-tag grammars), score alphabet {0,-1,-4,-0.5,-8}; beam ties and threshold margins are unspecified, not judged.', '5/C01'),
+         'Every score matrix of full products and deviation-bounded families, for the synthetic and 3 real grammars, both head directions, n<=4 (5-10 words for grammars with small derivation spaces; constant and three graded baselines; thorough: deepest deviation bound that fits a work budget), unary penalties and beam settings, and every step budget of a family, is run through the real parsing.h; the premise that both shipped grammars are head-uniform is judged on one instance of every schema; the returned score must equal the maximum over all independently enumerated derivations and the hook must never see a priority increase.',
+         'Trusted: derivation oracle (mc/search.py), ctypes shim, exact dyadic arithmetic; bounds: n<=4 everywhere, up to 10 words where the oracle can enumerate, score alphabet {0,-1,-4,-0.5,-8}; beam ties and threshold margins are unspecified, not judged.', '5/C01'),
  'C02': ('search', MC, 'bounded exhaustive enumeration of search executions; structural validator of every returned tree',
-         'Every returned tree of every execution in the bounded space (deviation-bounded and full-product score matrices x 15 grammars x n<=3(4) x n-best {1,2,5} x beam settings, native driver and full stack) is validated against the statement: leaves = tokens in order with admitted supertags, every node licensed by the grammar callback, allowed root, no unary root for n>1, nothing but trees or the placeholder.',
+         'Every returned tree of every execution in the bounded space (deviation-bounded and full-product score matrices x grammars (incl. two mixed-head ones) x n<=3(4), 5-10-word sentences for small derivation spaces, n-best {1,2,5} and all-derivation runs, beam settings, native driver and full stack) is validated against the statement: leaves = tokens in order with admitted supertags, every node licensed by the grammar callback, allowed root, no unary root for n>1, nothing but trees or the placeholder.',
          'Trusted: validator in mc/search.py, transliterated parsing.pyx on the full path, category print/parse round trip for the grammars used.', '5/C02'),
  'C09': ('search', MC, 'bounded exhaustive enumeration of search executions; score recomputed from each returned tree',
-         'For every returned tree of every execution (grammars of both head directions, penalties {0,0.5,0.125}, n-best {1,3}) the score is recomputed from the tree and its head flags exactly as the statement says and compared with == on an exact dyadic alphabet; placeholders must carry -inf.',
+         'For every returned tree of every execution (grammars of both head directions and mixed heads, penalties {0,0.5,0.125}, n-best {1,3}, 5-10-word sentences for small derivation spaces, constant and graded baselines) the score is recomputed from the tree and its head flags exactly as the statement says and compared with == on an exact dyadic alphabet; placeholders must carry -inf.',
          'Trusted: exact float32 arithmetic on the dyadic alphabet; transliterated parsing.pyx.', '5/C09'),
  'C10': ('search', MC, 'bounded exhaustive enumeration of search executions in n-best mode against the sorted score list of all derivations',
          'For every execution and every k in {1,2,3,5,#derivations+1,50}: returned scores == first min(k,#) of the sorted scores of all independently enumerated derivations, trees pairwise different, non-increasing, each valid and correctly scored.',
-         'Trusted: derivation oracle; bounds n<=3 (4 for synthetic grammars).', '5/C10'),
+         'Trusted: derivation oracle; bounds n<=3 (4 for synthetic grammars, 5-10 words where derivation spaces stay small, incl. all-derivation runs); for mixed-head grammars only validity, score, order and distinctness are judged.', '5/C10'),
  'C11': ('history', MC, 'exhaustive enumeration of batch histories x chunkings x pool completion schedules on a virtual pool; differential oracle (solo result)',
-         'All sequences (len<=3, with repetition) and permutations (size 4; 5 thorough) of a 6-sentence pool x processes {1..4} x max_chunk_size {0,1,2,20} x every completion schedule of the chunk tasks; depccg/parsing.py runs unmodified over a virtual Pool/time (the number of chunk tasks is observed in a probe run); result[i] must equal the solo result; a second scenario explores equal-score ambiguity through derived categories whose ids depend on history (all 4^3 best-head assignments x warm-up histories); every +-1 shape fault must raise before any parse_sentence call.',
+         'All sequences (len<=3, with repetition) and permutations (size 4; 5 thorough) of a 6-sentence pool x processes {1..4} x max_chunk_size {0,1,2,20} x every completion schedule of the chunk tasks; depccg/parsing.py runs unmodified over a virtual Pool/time (the number of chunk tasks is observed in a probe run); result[i] must equal the solo result; a large-rule-cache scenario (320/600 supertags, 32/50 sentences, cache sizes up to 1.2e5/4.5e5 entries growing inside sentences that need their first entry at the end); a second scenario explores equal-score ambiguity through derived categories whose ids depend on history (all 4^3 best-head assignments x warm-up histories); every +-1 shape fault must raise before any parse_sentence call.',
          'Trusted: virtual pool semantics (validated against real multiprocessing.Pool on two batches); all tasks share one interpreter; transliterated parsing.pyx.', '5/C11'),
  'C12': ('search', MC, 'bounded exhaustive enumeration of search executions over grammars with several results per pair; reader round trips over all licensed trees',
-         'Parser part: every node of every returned tree must carry (label, symbol, head direction) of a grammar result with that category for its children, and the stored rule index must name such a result (G4 has same-category results with different labels and two-target unary rules, both head directions). Reader part: every licensed derivation printed in each readable format and read back must carry the deriving rule label (and head direction where the format has no head field); every history of <=3 (language, format) reading steps in one process, each from fresh module state, is judged against the active grammar.',
+         'Parser part: every node of every returned tree must carry (label, symbol, head direction) of a grammar result with that category for its children, and the stored rule index must name such a result (G4 has same-category results with different labels and two-target unary rules, both head directions). Reader part: every licensed derivation and twin trees (the same child pair under different parents in one line) printed in each readable format and read back must carry the deriving rule label (and head direction where the format has no head field); every history of <=3 (language, format) reading steps in one process, each from fresh module state, is judged against the active grammar.',
          'Trusted: grammar callbacks as ground truth; transliterated parsing.pyx.', '5/C12'),
  'C16': ('search', MC, 'exhaustive enumeration of tag rows x pruning_size x beta through parse_sentence against the admitted-set oracle',
-         'Every combination of tag rows over {0,-1,-2,-4,-1e33} for n<=2 words x pruning_size {1,2,3} x beta {off,0.5,0.2,0.01} in a grammar where each tag choice yields a distinct derivation: leaves must be admitted, result must be the optimum over admitted-only derivations, failure iff none.',
+         'Every combination of tag rows over {0,-1,-4,-150,-1e33} for n<=2 words x pruning_size {1,2,3} x beta {off,0.5,0.2,0.01} in a grammar where each tag choice yields a distinct derivation, 1-best and n-best, native and through depccg.parsing.run; a 40-tag inventory whose one-word sentences return exactly the admitted tags (best tag at every position, two lower tags at every ordered pair of positions): leaves must be admitted, result must be the optimum over admitted-only derivations, failure iff none.',
          'Ties at the pruning boundary, probabilities within e^0.3 of the threshold and all-zero probabilities are unspecified and not judged (counted).', '5/C16'),
  'C03': ('catspace', EX, 'exhaustive enumeration of ordered category pairs and schema instantiations against schema relations',
          'All ordered pairs of the shipped English and rebank inventories, rule-closure x inventory, U_en(2)^2 (U_en(3) x U_en(2) in thorough) and every instantiation of the six schemas over a pool with feature perturbations: each result must satisfy the relation of the schema its label names; identical parts must yield the schema result; listed special rules as constants.',
@@ -42,13 +42,13 @@ CHECKS = {
          'Pattern pairs read from the grammar sources plus all canonical pattern pairs over <=3 variables/<=2 slashes, against all pairs of U(2) and all pool instantiations with feature perturbations: success iff the statement says so (unspecified zone not judged), bindings, failure and single-use behaviour.',
          'Trusted: mc/matcher.py reference; mixed-direction ternary variables / mixed feature systems / repeated variables in one pattern are unspecified.', '5/C06'),
  'C13': ('catspace', EX, 'exhaustive enumeration of ordered pairs of category values against an independent structural comparator',
-         'All ordered pairs of a size-ordered prefix of U(3) over both feature systems and three slashes: == iff identical, hash, != , ^ iff equal skeleton, string comparison iff canonical text; per value dict/set membership, clear_features over every subset of feature names; values derived by clear_features and by the rule functions must be interchangeable (==, hash, set/dict) with equal values built from scratch.',
+         'All ordered pairs of a size-ordered prefix of U(3) over both feature systems and three slashes: == iff identical, hash, != , ^ iff equal skeleton, string comparison iff canonical text; per value dict/set membership, clear_features over every subset of feature names; deep values (4-12 atoms, every shipped category with >=4 atoms) against every single-point neighbour; values derived by clear_features and by the rule functions must be interchangeable (==, hash, set/dict) with equal values built from scratch.',
          'Trusted: mc/cats.py::key comparator; bound: all of U(2) plus a prefix of size 3 (larger prefix in thorough).', '5/C13'),
  'C14': ('catspace', MC, 'exhaustive enumeration of calls x every iteration order of the explorer-owned string set (schedule exploration of the hash-seed nondeterminism)',
-         'Every pair in the bounded spaces is applied under every iteration order of the set of shared variable names (the only hash-seed-dependent construct on the path), must not raise, must not mutate its arguments, must repeat; seen-rule filtering equals the unrestricted result or []; nb invariance; unary tables (plain dict and defaultdict) return exactly their targets and are not modified; the U(2) shards are recomputed in the opposite order in a fresh process (call-history independence); the cached helper apply_rules. Subprocess digests under several real PYTHONHASHSEED values validate that the seam owns the nondeterminism.',
+         'Every pair in the bounded spaces is applied under every iteration order of the set of shared variable names (the only hash-seed-dependent construct on the path), must not raise, must not mutate its arguments, must repeat (incl. variables bound to spines of up to 13 atoms with the feature variable at every pair of positions); seen-rule filtering equals the unrestricted result or []; nb invariance; unary tables (plain dict and defaultdict) return exactly their targets and are not modified; the U(2) shards are recomputed in the opposite order in a fresh process (call-history independence); the cached helper apply_rules. Subprocess digests under several real PYTHONHASHSEED values validate that the seam owns the nondeterminism.',
          'Trusted: seam covers all seed-dependent constructs (validated by digests under 4/16 real seeds); sets >4 elements get 25 orders only (counted).', '5/C14'),
  'C07': ('treespace', EX, 'exhaustive enumeration of trees x tokens x formats x batch shapes against independent decoders',
-         'Licensed derivations of both grammars and every arbitrary tree shape (both head directions) x a 52-token alphabet x 10/9 formats x batch shapes: each output is read by an independent decoder written from the format description and must equal the projection of the derivation (words, shape, categories in the format spelling, labels, head flags, token attributes, offsets, conll heads, record numbering).',
+         'Licensed derivations of both grammars, every arbitrary tree shape (both head directions), 11-13-word trees and trees whose leaves carry every shipped category string x a 57-token alphabet x 10/9 formats x batch shapes: each output is read by an independent decoder written from the format description and must equal the projection of the derivation (words, shape, categories in the format spelling, labels, head flags, token attributes, offsets, conll heads, record numbering).',
          'Trusted: decoders in mc/decoders.py; ccg2lambda formats excluded (need nltk/yaml); quick tier caps licensed trees per (label, shape) class and places tokens at one position per tree.', '5/C07'),
  'C08': ('treespace', EX, 'exhaustive enumeration of trees x tokens through to_string(auto) -> file -> read_auto',
          'Same tree families x tokens without backslash: the tree read back has the same categories, shape, head flags, POS and words (escaped spelling); auto_of(read) reproduces the line; the reader token list matches; conll last-column fragments spell the same line.',
@@ -57,10 +57,10 @@ CHECKS = {
          'C&C XML -> read_xml (shape, categories, words, token attributes, rule labels of licensed derivations); Jigg XML (ja) -> read_jigg_xml; every Jigg sentence self-contained (unique ids, references resolve, offsets tile, one root); build_ccg_tree isomorphic with rule attributes; normalize_tokens names; the document handed to ccg2lambda carries the template vocabulary.',
          'ccg2lambda.parse itself is not executed (nltk/yaml absent); template vocabulary read by a line scanner.', '5/C15'),
  'C17': ('data', EX, 'exhaustive enumeration of documents x dictionaries against a reference mask; complete pass over the shipped data files',
-         'Every document of <=2 sentences x <=2 tokens over 3 words x every dictionary mapping <=2 words to every non-empty subset of 3(4) categories in both call forms: result == reference mask, dependency arrays bit-identical, tokens untouched. Every cat_dict.en entry is in targets.en, all 3469 shipped strings are well formed, inventories duplicate-free.',
+         'Every document of <=2 sentences x <=2 tokens over 3 words x every dictionary mapping <=2 words to every non-empty subset of 3(4) categories in both call forms, and a 16-category inventory with every dictionary {a: <=3 positions, b: <=2 positions}: result == reference mask, dependency arrays bit-identical, tokens untouched. Every cat_dict.en entry is in targets.en, all 3469 shipped strings are well formed, inventories duplicate-free.',
          'read_params (needs allennlp) is restated.', '5/C17'),
  'C18': ('history', MC, 'explicit-state BFS over rendering histories with canonical state hashing (closure at depth 1 => any history length)',
-         'States are canonical deep snapshots of result objects (single trees, n-best lists sharing tokens, batches, the placeholder); transitions are the formats. Every transition must be a self-loop, every output must equal the fresh-copy output and repeat; if all transitions out of the initial state are self-loops the graph is closed and the property holds for histories of any length, otherwise the search continues to depth 3.',
+         'States are canonical deep snapshots of result objects (single trees, n-best lists sharing tokens, batches, the placeholder, 5-13-word trees under every ordered pair of formats); transitions are the formats. Every transition must be a self-loop, every output must equal the fresh-copy output and repeat; if all transitions out of the initial state are self-loops the graph is closed and the property holds for histories of any length, otherwise the search continues to depth 3.',
          'State = content of result objects (object identity of shared tokens preserved); ccg2lambda formats excluded.', '5/C18'),
  'C19': ('treespace', EX, 'exhaustive enumeration of licensed trees covering the whole label vocabulary x placeholder batches x CLI formats',
          'Every licensed derivation (with synthetic unary entries) plus one derivation per label of the rule-function vocabulary (read from the grammar sources) x rich and bare tokens, the placeholder from a real failing run, every batch of <=3 sentences over {parsed, failed} x every CLI format (read from argparse.py) except the ccg2lambda ones: no exception, parsed sentences decode.',
